@@ -172,6 +172,48 @@ func rangeLoopOver(l *Loop) (ssa.Value, *ssa.Phi, bool) {
 		}
 	}
 	if idxPhi == nil {
+		// counted loop `for i := 0; i < len(s); i++`: i is a phi of 0 and i+1 only
+		for _, in := range h.Instrs {
+			p, ok := in.(*ssa.Phi)
+			if !ok || len(p.Edges) != 2 {
+				continue
+			}
+			zero, inc := false, false
+			for _, e := range p.Edges {
+				if k, ok := constInt(e); ok && k == 0 {
+					zero = true
+				}
+				if bo, ok := e.(*ssa.BinOp); ok && bo.Op == token.ADD && bo.X == ssa.Value(p) {
+					if k, ok := constInt(bo.Y); ok && k == 1 {
+						inc = true
+					}
+				}
+			}
+			if zero && inc {
+				idxPhi = p
+			}
+		}
+		if idxPhi == nil {
+			return nil, nil, false
+		}
+		ifi, ok := h.Instrs[len(h.Instrs)-1].(*ssa.If)
+		if !ok {
+			return nil, nil, false
+		}
+		cmp, ok := ifi.Cond.(*ssa.BinOp)
+		if !ok || cmp.Op != token.LSS || cmp.X != ssa.Value(idxPhi) {
+			return nil, nil, false
+		}
+		if call, ok := cmp.Y.(*ssa.Call); ok {
+			if b, ok := call.Call.Value.(*ssa.Builtin); ok && b.Name() == "len" {
+				sl := call.Call.Args[0]
+				// the slice must not change inside the loop
+				if in, isInstr := sl.(ssa.Instruction); isInstr && in.Block() != nil && (l.Body[in.Block()] || in.Block() == h) {
+					return nil, nil, false
+				}
+				return sl, idxPhi, true
+			}
+		}
 		return nil, nil, false
 	}
 	ifi, ok := h.Instrs[len(h.Instrs)-1].(*ssa.If)
@@ -262,6 +304,9 @@ func (p *Path) String() string {
 type PathCfg struct {
 	// Classify returns the event classes of an instruction (may be nil).
 	Classify func(in ssa.Instruction) []string
+	// ClassifyV is like Classify, with a resolver that maps a value to what flowed into it along
+	// the current path (phis, parameters and results of expanded callees).
+	ClassifyV func(in ssa.Instruction, resolve func(ssa.Value) ssa.Value) []string
 	// SelectEvent returns the event classes of choosing state k of sel (k = -1: default).
 	SelectEvent func(sel *ssa.Select, k int) []string
 	// Branch returns event classes for taking (taken=true: first successor) a conditional branch.
@@ -291,12 +336,26 @@ type penv struct {
 	phiIn   map[*ssa.Phi]ssa.Value
 	rel     map[[2]ssa.Value]bool // known (in)equality between two non-constant values
 	notNil  map[ssa.Value]bool    // values known to differ from nil
+	vals    map[ssa.Value]ssa.Value // parameters of expanded callees -> argument; expanded single-result calls -> returned value
+	tuples  map[*ssa.Call][]ssa.Value // expanded multi-result calls -> returned values
 }
 
 func (e *penv) clone() *penv {
 	n := &penv{consts: map[ssa.Value]constant.Value{}, fields: map[string]constant.Value{}, chosen: map[*ssa.Select]int{}, exclude: map[*ssa.Select]map[int]bool{}, back: map[edge]int{}, phiIn: map[*ssa.Phi]ssa.Value{}}
 	for k, v := range e.phiIn {
 		n.phiIn[k] = v
+	}
+	if len(e.vals) > 0 {
+		n.vals = map[ssa.Value]ssa.Value{}
+		for k, v := range e.vals {
+			n.vals[k] = v
+		}
+	}
+	if len(e.tuples) > 0 {
+		n.tuples = map[*ssa.Call][]ssa.Value{}
+		for k, v := range e.tuples {
+			n.tuples[k] = v
+		}
 	}
 	if len(e.notNil) > 0 {
 		n.notNil = map[ssa.Value]bool{}
@@ -401,7 +460,7 @@ func (en *enumerator) evalConst(v ssa.Value, env *penv) constant.Value {
 		}
 		if x.Op == token.MUL {
 			if fa, ok := x.X.(*ssa.FieldAddr); ok && en.cfg.ConsistentFields[fieldOfAddr(fa)] {
-				if c, ok := env.fields[fieldKey(fa)]; ok {
+				if c, ok := env.fields[fieldKey(fa, env)]; ok {
 					return c
 				}
 			}
@@ -448,22 +507,45 @@ func (en *enumerator) evalConst(v ssa.Value, env *penv) constant.Value {
 
 // resolvePhi follows phis to the value that flowed in along the current path.
 func resolvePhi(v ssa.Value, env *penv) ssa.Value {
-	for i := 0; i < 20; i++ {
-		phi, ok := v.(*ssa.Phi)
-		if !ok {
+	for i := 0; i < 40; i++ {
+		switch x := v.(type) {
+		case *ssa.Phi:
+			in, ok := env.phiIn[x]
+			if !ok || in == nil {
+				return v
+			}
+			v = in
+		case *ssa.Parameter:
+			a, ok := env.vals[x]
+			if !ok {
+				return v
+			}
+			v = a
+		case *ssa.Call:
+			a, ok := env.vals[x]
+			if !ok {
+				return v
+			}
+			v = a
+		case *ssa.Extract:
+			call, ok := x.Tuple.(*ssa.Call)
+			if !ok {
+				return v
+			}
+			t, ok := env.tuples[call]
+			if !ok || x.Index >= len(t) || t[x.Index] == nil {
+				return v
+			}
+			v = t[x.Index]
+		default:
 			return v
 		}
-		in, ok := env.phiIn[phi]
-		if !ok || in == nil {
-			return v
-		}
-		v = in
 	}
 	return v
 }
 
-func fieldKey(fa *ssa.FieldAddr) string {
-	return fmt.Sprintf("%p.%d", strip(fa.X), fa.Field)
+func fieldKey(fa *ssa.FieldAddr, env *penv) string {
+	return fmt.Sprintf("%p.%d", strip(resolvePhi(strip(fa.X), env)), fa.Field)
 }
 
 // selectIndexTest recognises `extract(sel,#0) == k`.
@@ -557,6 +639,11 @@ func (en *enumerator) walk(fn *ssa.Function, b *ssa.BasicBlock, pred *ssa.BasicB
 				events = append(events, Event{Class: cl, In: in})
 			}
 		}
+		if en.cfg.ClassifyV != nil {
+			for _, cl := range en.cfg.ClassifyV(in, func(v ssa.Value) ssa.Value { return resolvePhi(v, env) }) {
+				events = append(events, Event{Class: cl, In: in})
+			}
+		}
 		switch x := in.(type) {
 		case *ssa.Select:
 			// a new execution of the select: forget the choice of an earlier iteration
@@ -587,6 +674,10 @@ func (en *enumerator) walk(fn *ssa.Function, b *ssa.BasicBlock, pred *ssa.BasicB
 						if c := en.evalConst(args[pi], env); c != nil {
 							cenv.consts[p] = c
 						}
+						if cenv.vals == nil {
+							cenv.vals = map[ssa.Value]ssa.Value{}
+						}
+						cenv.vals[p] = resolvePhi(args[pi], env)
 					}
 				}
 				savedDefers := cenv.defers
@@ -601,6 +692,23 @@ func (en *enumerator) walk(fn *ssa.Function, b *ssa.BasicBlock, pred *ssa.BasicB
 					nenv.defers = savedDefers
 					if len(cp.Ret) == 1 && cp.Ret[0] != nil {
 						nenv.consts[x] = cp.Ret[0]
+					}
+					if len(cp.RetV) == 1 && cp.RetV[0] != nil {
+						if nenv.vals == nil {
+							nenv.vals = map[ssa.Value]ssa.Value{}
+						}
+						nenv.vals[x] = cp.RetV[0]
+					} else if len(cp.RetV) > 1 {
+						if nenv.tuples == nil {
+							nenv.tuples = map[*ssa.Call][]ssa.Value{}
+						}
+						nenv.tuples[x] = cp.RetV
+						// constant results of a multi-result helper (ok flags) are known to the extracts
+						for _, r := range *x.Referrers() {
+							if ex, ok := r.(*ssa.Extract); ok && ex.Index < len(cp.Ret) && cp.Ret[ex.Index] != nil {
+								nenv.consts[ex] = cp.Ret[ex.Index]
+							}
+						}
 					}
 					en.walk(fn, b, nil, bi+1, nenv, cp.Events, cp.Blocks, depth, emit)
 				})
@@ -660,7 +768,15 @@ func (en *enumerator) walk(fn *ssa.Function, b *ssa.BasicBlock, pred *ssa.BasicB
 					return events
 				}
 				ev := events
-				for _, cl := range en.cfg.Branch(x, resolvePhi(x.Cond, env), taken) {
+				rc := resolvePhi(x.Cond, env)
+				if cn, _ := negStrip(rc); cn != nil {
+					if _, isConst := cn.(*ssa.Const); isConst {
+						// a flag that is constant on this path (e.g. `excluded := false` merged with
+						// computed values): the test decides nothing here
+						return events
+					}
+				}
+				for _, cl := range en.cfg.Branch(x, rc, taken) {
 					ev = append(append([]Event(nil), ev...), Event{Class: cl, In: x})
 				}
 				return ev
@@ -696,7 +812,7 @@ func (en *enumerator) assume(cond ssa.Value, val bool, env *penv) {
 		}
 		if x.Op == token.MUL {
 			if fa, ok := x.X.(*ssa.FieldAddr); ok && en.cfg.ConsistentFields[fieldOfAddr(fa)] {
-				env.fields[fieldKey(fa)] = constant.MakeBool(val)
+				env.fields[fieldKey(fa, env)] = constant.MakeBool(val)
 			}
 		}
 	case *ssa.BinOp:
